@@ -619,6 +619,41 @@ def c09_consts(repo, grab):
             raise Missing('non-ASCII check of ManifestIterator::next')
         return 1 if 'self.poison' in m.group(1) else 0
     grab('maniNonAsciiPoisons', nonascii_poisons)
+    # the four checks the detection theorems of C09 lean on, as the source states them
+    def crc_fatal(fn):
+        m = re.search(r'fn %s\b.*?\n    \}\n' % fn, lib, re.S)
+        if not m:
+            raise Missing(fn)
+        k = re.search(r'if table_entry\.crc32c\(\) != block_metadata\.crc32c \{(.*?)\n        \}', m.group(0), re.S)
+        if not k:
+            raise Missing('checksum comparison of ' + fn)
+        return 1 if re.search(r'return Err\(crc32c_failure\(', k.group(1)) else 0
+    grab('sstBlockCrcMismatchIsError', lambda: crc_fatal('load_block'))
+    grab('sstFilterCrcMismatchIsError', lambda: crc_fatal('load_filter_block'))
+    def short_payload():
+        m = re.search(r'if got as u64 != header\.size \{(.*?)\n        \}', lg, re.S)
+        if not m:
+            raise Missing('short read of a frame payload in next_frame')
+        return 1 if 'return Err(' in m.group(1) else 0
+    grab('logShortPayloadIsError', short_payload)
+    def trueup_bound():
+        m = re.search(r'fn true_up\(&mut self\) -> Result<\(\), SError> \{.*?if trued_up - offset > ([A-Za-z_0-9]+) \{\s*return Err', lg, re.S)
+        if not m:
+            raise Missing('bound of LogIterator::true_up')
+        return m.group(1)
+    grab('logTrueUpBound', trueup_bound)
+    def trueup_checks_zero():
+        m = re.search(r'fn true_up\(&mut self\) -> Result<\(\), SError> \{(.*?)\n    \}\n', lg, re.S)
+        if not m:
+            raise Missing('LogIterator::true_up')
+        return 1 if re.search(r'if padding\.iter\(\)\.any\(\|b\| \*b != 0\) \{\s*return Err', m.group(1)) else 0
+    grab('logTrueUpChecksZero', trueup_checks_zero)
+    def separator_exact():
+        m = re.search(r'if ([^{}]*TX_SEPARATOR[^{}]*) \{\s*return Some\(Ok\(edit\)\);', mani)
+        if not m:
+            raise Missing('separator test of ManifestIterator::next')
+        return 1 if m.group(1).strip() == 'line == TX_SEPARATOR' else 0
+    grab('maniSeparatorExact', separator_exact)
 
 def lean_str(x):
     return '"' + x.replace('\\', '\\\\').replace('"', '\\"') + '"'
